@@ -119,7 +119,7 @@ func concScenario(out *Out, sc int) {
 					cmd = &regattapb.Command{Type: regattapb.Command_DELETE, Kv: &regattapb.KeyValue{Key: c.Kv.Key}, PrevKvs: c.PrevKvs, RangeEnd: c.RangeEnd, Count: c.Count}
 				case regattapb.Command_TXN:
 					rq := &regattapb.TxnRequest{Table: tb, Compare: c.Txn.Compare, Success: c.Txn.Success, Failure: c.Txn.Failure}
-					if rq.IsReadonly() {
+					if txnIsReadonly(rq) {
 						cancel()
 						continue
 					}
@@ -201,7 +201,7 @@ func concScenario(out *Out, sc int) {
 					}
 				}
 				trq := &regattapb.TxnRequest{Table: tb, Compare: t.Compare, Success: t.Success, Failure: t.Failure}
-				if !trq.IsReadonly() {
+				if !txnIsReadonly(trq) {
 					break
 				}
 				inv := now()
